@@ -1,5 +1,327 @@
-"""Seam conformance: placeholder until the scripted comparisons are in."""
+"""Seam conformance: every behaviour of the simulated primitives that an
+oracle can depend on is compared with the real primitive on scripted
+sequences (real sockets on loopback, no network needed).
+
+Each scenario is a script returning a list of outcomes; it is executed
+once against the real `multiprocessing.connection` / `selectors` /
+`threading` / `queue` and once against the simulator's fakes.
+"""
+from __future__ import annotations
+
+import os
+import queue
+import selectors
+import sys
+import threading
+import time
+
+VERIF = os.path.dirname(os.path.dirname(os.path.abspath(__file__)))
+
+
+def outcome(fn, *a):
+    try:
+        return ('ok', fn(*a))
+    except BaseException as e:  # noqa
+        return ('exc', type(e).__name__)
+
+
+# ------------------------------------------------------------------ real
+def real_peer(script: str):
+    """Fork a peer process that connects and follows `script`."""
+    from multiprocessing.connection import Client
+    from multiprocessing.connection import Listener
+    lst = Listener(('localhost', 0))
+    addr = lst.address
+    pid = os.fork()
+    if pid == 0:
+        try:
+            c = Client(addr)
+            if script == 'read-all-then-exit':
+                n = c.recv()
+                for _ in range(n):
+                    c.recv()
+                c.send('done')
+                os._exit(0)
+            if script == 'exit-with-unread':
+                c.send('hello')
+                time.sleep(0.3)      # let the survivor's messages arrive
+                os._exit(0)
+            if script == 'close-then-linger':
+                c.recv()
+                c.close()
+                time.sleep(1.0)
+                os._exit(0)
+        finally:
+            os._exit(0)
+    conn = lst.accept()
+    lst.close()
+    return conn, pid
+
+
+def real_scenarios() -> dict:
+    from multiprocessing.connection import Client
+    out = {}
+    # 1. peer exits after reading everything
+    conn, pid = real_peer('read-all-then-exit')
+    conn.send(2)
+    conn.send('a')
+    conn.send('b')
+    r = [outcome(conn.recv)]
+    os.waitpid(pid, 0)
+    r.append(outcome(conn.recv))
+    r.append(outcome(conn.send, 'x'))
+    time.sleep(0.2)
+    r.append(outcome(conn.send, 'y'))
+    r.append(outcome(conn.poll))
+    out['peer-exit-after-reading'] = r
+    conn.close()
+    # 2. peer exits with unread data
+    conn, pid = real_peer('exit-with-unread')
+    conn.send('unread-1')
+    conn.send('unread-2')
+    os.waitpid(pid, 0)
+    time.sleep(0.1)
+    r = [outcome(conn.recv), outcome(conn.recv)]
+    r.append(outcome(conn.send, 'x'))
+    out['peer-exit-with-unread'] = r
+    conn.close()
+    # 3. use after local close
+    conn, pid = real_peer('close-then-linger')
+    conn.send('go')
+    conn.close()
+    r = [outcome(conn.send, 1), outcome(conn.recv), outcome(conn.poll),
+         outcome(conn.fileno), ('ok', conn.closed)]
+    out['use-after-close'] = r
+    os.waitpid(pid, 0)
+    # 4. nobody listens
+    out['connect-refused'] = [outcome(Client, ('localhost', 1))]
+    # 5. selector bookkeeping
+    conn, pid = real_peer('close-then-linger')
+    sel = selectors.DefaultSelector()
+    r = [outcome(lambda: sel.register(conn, selectors.EVENT_READ, 'd').data)]
+    r.append(outcome(lambda: sel.register(conn, selectors.EVENT_READ)))
+    conn.send('go')
+    ev = sel.select()     # peer closes -> readable (EOF)
+    r.append(('ok', [k.data for k, _ in ev]))
+    r.append(outcome(conn.recv))
+    conn.close()
+    r.append(outcome(sel.unregister, conn))
+    sel.close()
+    r.append(outcome(sel.select, 0))
+    out['selector'] = r
+    os.waitpid(pid, 0)
+    # 6. threads and queues
+    r = []
+    box = []
+
+    def selfjoin():
+        box.append(outcome(threading.current_thread().join))
+    t = threading.Thread(target=selfjoin)
+    t.start()
+    t.join()
+    r.append(box[0])
+    q = queue.Queue()
+    r.append(outcome(q.get_nowait))
+    q.put(5)
+    r.append(outcome(q.get_nowait))
+    r.append(('ok', q.empty()))
+    lk = threading.Lock()
+    r.append(outcome(lk.release))
+    out['thread-queue'] = r
+    return out
+
+
+# ------------------------------------------------------------------- sim
+def sim_scenarios() -> dict:
+    sys.path.insert(0, VERIF)
+    from dst import seams
+    from dst.sched import Sim
+    out = {}
+
+    def run(survivor, peer):
+        sim = Sim(0, policy={'kind': 'uniform'})
+        res = []
+        sim.spawn(sim.node('a', 'other'), survivor, (sim, res), name='a/main')
+        sim.spawn(sim.node('b', 'other'), peer, (sim,), name='b/main')
+        sim.run()
+        return res
+
+    Client = None
+
+    def listen(sim):
+        return seams.SimListener(sim, ('localhost', 5000))
+
+    def connect(sim):
+        c = seams.make_client(sim)
+        while True:
+            try:
+                return c(('localhost', 5000))
+            except ConnectionRefusedError:
+                sim.sleep(0.01)
+
+    # 1
+    def s1(sim, r):
+        lst = listen(sim)
+        conn = lst.accept()
+        lst.close()
+        conn.send(2)
+        conn.send('a')
+        conn.send('b')
+        r.append(outcome(conn.recv))
+        sim.sleep(0.2)
+        r.append(outcome(conn.recv))
+        r.append(outcome(conn.send, 'x'))
+        sim.sleep(0.2)
+        r.append(outcome(conn.send, 'y'))
+        r.append(outcome(conn.poll))
+
+    def p1(sim):
+        c = connect(sim)
+        n = c.recv()
+        for _ in range(n):
+            c.recv()
+        c.send('done')
+    out['peer-exit-after-reading'] = run(s1, p1)
+
+    # 2
+    def s2(sim, r):
+        lst = listen(sim)
+        conn = lst.accept()
+        lst.close()
+        conn.send('unread-1')
+        conn.send('unread-2')
+        sim.sleep(0.5)
+        r.append(outcome(conn.recv))
+        r.append(outcome(conn.recv))
+        r.append(outcome(conn.send, 'x'))
+
+    def p2(sim):
+        c = connect(sim)
+        c.send('hello')
+        sim.sleep(0.3)
+    out['peer-exit-with-unread'] = run(s2, p2)
+
+    # 3
+    def s3(sim, r):
+        lst = listen(sim)
+        conn = lst.accept()
+        lst.close()
+        conn.send('go')
+        conn.close()
+        r.extend([outcome(conn.send, 1), outcome(conn.recv),
+                  outcome(conn.poll), outcome(conn.fileno),
+                  ('ok', conn.closed)])
+
+    def p3(sim):
+        c = connect(sim)
+        c.recv()
+        c.close()
+        sim.sleep(1.0)
+    out['use-after-close'] = run(s3, p3)
+
+    # 4
+    def s4(sim, r):
+        r.append(outcome(seams.make_client(sim), ('localhost', 1)))
+    out['connect-refused'] = run(s4, lambda sim: None)
+
+    # 5
+    def s5(sim, r):
+        lst = listen(sim)
+        conn = lst.accept()
+        lst.close()
+        sel = seams.SimSelector(sim)
+        r.append(outcome(lambda: sel.register(conn, selectors.EVENT_READ,
+                                              'd').data))
+        r.append(outcome(lambda: sel.register(conn, selectors.EVENT_READ)))
+        conn.send('go')
+        ev = sel.select()
+        r.append(('ok', [k.data for k, _ in ev]))
+        r.append(outcome(conn.recv))
+        conn.close()
+        r.append(outcome(sel.unregister, conn))
+        sel.close()
+        r.append(outcome(sel.select, 0))
+    out['selector'] = run(s5, p3)
+
+    # 6
+    def s6(sim, r):
+        box = []
+
+        def selfjoin():
+            box.append(outcome(t.join))
+        t = seams.SimThreadFacade(sim, target=selfjoin)
+        t.start()
+        t.join()
+        r.append(box[0])
+        q = seams.SimQueue(sim)
+        r.append(outcome(q.get_nowait))
+        q.put(5)
+        r.append(outcome(q.get_nowait))
+        r.append(('ok', q.empty()))
+        lk = seams.SimLock(sim)
+        r.append(outcome(lk.release))
+    out['thread-queue'] = run(s6, lambda sim: None)
+    return out
+
+
+def lock_stress() -> list:
+    """Mutual exclusion of SimLock / SimRLock / SimQueue under the
+    scheduler itself (a primitive that yields between check and update
+    produces phantom double acquisitions)."""
+    sys.path.insert(0, VERIF)
+    from dst import seams
+    from dst.sched import Sim
+    bad = []
+    for seed in range(40):
+        sim = Sim(seed, policy={'kind': 'uniform'})
+        node = sim.node('n', 'other')
+        lk = seams.SimLock(sim)
+        rl = seams.SimRLock(sim)
+        q = seams.SimQueue(sim)
+        state = {'in': 0, 'max': 0, 'got': []}
+
+        def worker(k):
+            for i in range(5):
+                with lk:
+                    with rl:
+                        with rl:
+                            state['in'] += 1
+                            state['max'] = max(state['max'], state['in'])
+                            sim.yield_('inside')
+                            state['in'] -= 1
+                q.put((k, i))
+
+        def consumer():
+            for _ in range(15):
+                state['got'].append(q.get())
+        for k in range(3):
+            sim.spawn(node, worker, (k,), name=f'n/w{k}')
+        sim.spawn(node, consumer, name='n/c')
+        sim.run()
+        if state['max'] != 1 or len(set(state['got'])) != 15 \
+                or sim.blocked_report():
+            bad.append((seed, state['max'], len(state['got'])))
+    return bad
 
 
 def main() -> int:
-    return 0
+    real = real_scenarios()
+    sim = sim_scenarios()
+    rc = 0
+    for k in real:
+        same = real[k] == sim.get(k)
+        print(f'conformance {k}: {"same" if same else "DIFFERENT"}')
+        if not same:
+            print('   real:', real[k])
+            print('   sim :', sim.get(k))
+            rc = 1
+    bad = lock_stress()
+    print(f'conformance lock/queue mutual exclusion under the scheduler: '
+          f'{"ok (40 seeds)" if not bad else "FAILED " + str(bad[:3])}')
+    if bad:
+        rc = 1
+    return rc
+
+
+if __name__ == '__main__':
+    sys.exit(main())
